@@ -11,14 +11,43 @@ from .models import wire
 _WORLDS: Dict[Tuple, world.World] = {}
 
 
-def get_world(is_async: bool, max_batch: Optional[int], fresh: bool = False, **kw: Any) -> world.World:
-    key = (is_async, max_batch, tuple(sorted(kw.items())))
+def _inert_kwargs(is_async: bool) -> Dict[str, Any]:
+    """middlewares / error handlers that must not change any answer: a pass-through middleware and a handler registered
+    for a code that never occurs (a non-empty handler table is all some code paths need to behave differently)"""
+    if is_async:
+        async def mw(request, context, handler):
+            return await handler(request, context)
+
+        async def eh(request, context, error):
+            return error
+    else:
+        def mw(request, context, handler):
+            return handler(request, context)
+
+        def eh(request, context, error):
+            return error
+    return {'middlewares': [mw], 'error_handlers': {424242: [eh]}}
+
+
+def get_world(is_async: bool, max_batch: Optional[int], fresh: bool = False, inert: bool = False, **kw: Any) -> world.World:
+    key = (is_async, max_batch, inert, tuple(sorted(kw.items())))
     if fresh:
-        return world.World(is_async, max_batch, **kw)
+        return world.World(is_async, max_batch, **kw, **(_inert_kwargs(is_async) if inert else {}))
     w = _WORLDS.get(key)
     if w is None:
-        w = _WORLDS[key] = world.World(is_async, max_batch, **kw)
+        w = _WORLDS[key] = world.World(is_async, max_batch, **kw, **(_inert_kwargs(is_async) if inert else {}))
     return w
+
+
+def world_for(flavour: str, max_batch: Optional[int]) -> world.World:
+    """flavour: sync | async | async-plain (plain functions on the async dispatcher) | sync-inert | async-inert"""
+    is_async = flavour.startswith('async')
+    if flavour == 'async-plain':
+        return get_world(True, max_batch, all_coroutines=False)
+    return get_world(is_async, max_batch, inert=flavour.endswith('-inert'))
+
+
+EXTRA_FLAVOURS = ('async-plain', 'sync-inert', 'async-inert')
 
 
 class TextInfo:
